@@ -162,12 +162,18 @@ def run(ctx, build):
             target = ft if separate else None
             this_d, this_t, this_p = rng.choice(DSETS), rng.choice(TOOLS), rng.choice(PARMS[:4])
             groups = []
-            for gi in range(rng.randint(0, 5)):
+            # the first histories are fixed designs (independent of the seed): exactly one matching group that is partial /
+            # complete, judged with and without override
+            forced = hi < 8
+            for gi in range(1 if forced else rng.randint(0, 5)):
                 r = rng.random()
-                dn = this_d if r < 0.6 else rng.choice(DSETS)
-                tool = this_t if rng.random() < 0.6 else rng.choice(TOOLS)
-                parms = this_p if rng.random() < 0.6 else rng.choice(PARMS)
+                dn = this_d if (r < 0.6 or forced) else rng.choice(DSETS)
+                tool = this_t if (rng.random() < 0.6 or forced) else rng.choice(TOOLS)
+                parms = this_p if (rng.random() < 0.6 or forced) else rng.choice(PARMS)
                 prog = gen_progress(rng, N)
+                if forced:
+                    prog = [('partial', [1] + [0] * (N - 1), None), ('complete', [1] * N, None), ('status_wrong_length', [1] * N),
+                            ('status_malformed_values', [2] * (N // 2 + 1) + [0] * (N - N // 2 - 1))][(hi // 2) % 4]
                 hist['progress_kinds'][prog[0]] = hist['progress_kinds'].get(prog[0], 0) + 1
                 name, status, lp = make_group(rng, mains[dn], N, M, tool, parms, target, prog)
                 groups.append({'name': name, 'dset': dn, 'tool': tool, 'parms': parms, 'progress': prog, 'status': status, 'last_pixel': lp})
@@ -182,7 +188,7 @@ def run(ctx, build):
                 hist['twin_source_in_separate_target'] = hist.get('twin_source_in_separate_target', 0) + 1
             parent = ft if separate else grp0
             before = {g['name']: digest(parent[g['name']]) for g in groups}
-            override = rng.random() < 0.3
+            override = (hi % 2 == 0) if hi < 8 else rng.random() < 0.3
             hist['histories'] += 1
             hist['separate_target'] += int(separate)
             hist['override'] += int(override)
